@@ -776,7 +776,15 @@ impl<K: Kmer, D: Debug> DebruijnGraph<K, D> {
                 if s.status == Status::Active {
                     active = true;
                     let expanded = self.expand_state(&s, &score);
-                    new_states.extend(expanded);
+                    if expanded.is_empty() {
+                        // none of this node's extensions resolves to a node: the path ends here
+                        new_states.push(State {
+                            status: Status::End,
+                            ..s
+                        });
+                    } else {
+                        new_states.extend(expanded);
+                    }
                 } else {
                     new_states.push(s)
                 }
